@@ -63,7 +63,11 @@ func (c *kctx) ioShape(n *ast.IfStmt) (kind string, arg ast.Expr) {
 		return "", nil
 	}
 	ret, ok := n.Body.List[0].(*ast.ReturnStmt)
-	if !ok || len(ret.Results) != 1 || exprString(ret.Results[0]) != "ctx.Raise("+errName+")" {
+	ctxNm := c.ctxNm
+	if ctxNm == "" {
+		ctxNm = "ctx"
+	}
+	if !ok || len(ret.Results) != 1 || exprString(ret.Results[0]) != ctxNm+".Raise("+errName+")" {
 		return "", nil
 	}
 	switch {
